@@ -224,9 +224,8 @@ def _exec_sol(case):
 
     def parsed(route, got):
         """got = (vehicles, costs, ScenarioID) -> one event per compared field; an exception -> one event."""
-        rsig = "solution/reader+kst" if route == "reader" and any(v["m"] == "KST" for v in vs) else sig
         for field in ("vehicles", "costs", "scenario_id", "version") if not isinstance(got, Exception) else ("all",):
-            s = "solution/" + id_sig(f, pk) if field == "scenario_id" and rsig == sig else rsig
+            s = "solution/" + id_sig(f, pk) if field == "scenario_id" else sig
             e = dict(base, op="sol_parse", route=route, field=field, sig=s, got_vs=[], got_cs=[], got_f=_NOF,
                      got_ver="", eq_op=0, eq_po=0, res="ok")
             if isinstance(got, Exception):
